@@ -130,9 +130,19 @@ def rule_b(ctx):
          'visitor call arguments changed')
   # KeyPath(key, parent) appends the key to the parent's keys
   f = idx.func(VL + 'KeyPath.__init__')
-  t = A.unparse(f.node, 3000)
-  ok = 'keys.extend(parent.keys)' in t and 'keys.extend(key_or_key_list)' in t and \
-      t.index('keys.extend(parent.keys)') < t.index('keys.extend(key_or_key_list)')
+  g = C.cfg_of(f.node)
+  ext = [(k, c) for k in g.nodes if k.ast is not None for c in k.calls()
+         if (A.call_name(c) or '').endswith('.extend') and c.args]
+  par = [(k, c) for k, c in ext if A.unparse(c.args[0]) == 'parent.keys']
+  own = [(k, c) for k, c in ext if A.unparse(c.args[0]) == 'key_or_key_list']
+  ok = bool(par) and bool(own)
+  if ok:
+    lst = A.call_name(par[0][1]).split('.')[0]
+    ok = A.call_name(own[0][1]).split('.')[0] == lst
+    seen, _ = g.reach(own[0][0], follow_exc=False)
+    ok = ok and par[0][0].id not in seen          # parent keys are added first
+    ok = ok and any(isinstance(n, ast.Assign) and A.unparse(n.targets[0]) == 'self._keys'
+                    and A.unparse(n.value) == lst for n in ast.walk(f.node))
   ctx.ob('C10.b', f.fq, ok, 'KeyPath(key, parent) = parent keys followed by key', f.loc,
          'key concatenation order changed')
 
